@@ -320,7 +320,7 @@ def judge_items(ctx, items, suite):
                 tree, grids = dict(kind="KSite", name="Project", subs=[]), []
                 ob["prepare_failed"] = f"{type(e).__name__}: {str(e)[:120]}"
             ob["tree"] = tree
-            cf.add(f"judge_c14_raise {coq_in(it, tree)} {ERR.get(ob['exc'], 9)}%Z [" + "; ".join(qlist(g) for g in grids) + "]")
+            cf.add(f"judge_c14_raise {coq_in(it, tree)} {ERR.get(ob['exc'], 9)}%Z [" + "; ".join(qlist([x for x in g if x == x and abs(x) != float("inf")]) for g in grids) + "]")
     return list(zip(run_cases(cf), obs))
 
 
